@@ -41,8 +41,8 @@ ASSUMPTIONS = [
     "std/var with ddof != 0 never use Numba (by design of the library) and are compared all the same",
 ]
 BOUND = {
-    "quick": "(c) every ordered pair of helpers in one aggregate call on float/int/date x 16 battery frames x 2x2 argument choices; (a) 1..3 rows (mode: 1..4) x groups {1,2}^n over 3-4 value alphabets for every (helper, dtype in bool,int,float,date,datetime) pair it accepts; (b) all ordered pairs of 9 first-uses (7 kernel-family representatives on float64 + first/int64, max/date, mode/bool): one process with cache off; the 30 ordered pairs of 6 of them split across two processes sharing a cache",
-    "thorough": "(c) as quick on all five dtypes; (a) 1..4 rows; (b) all ordered pairs of all 16 helpers on each of float/int/bool/date x cache {off, cold, warmed by an earlier process}; all ordered triples of the 7 representatives; all ordered cross-dtype pairs of the representatives",
+    "quick": "(c) every ordered pair of helpers in one aggregate call on float/int/date x 16 battery frames x 2x2 argument choices; (a) 1..3 rows (mode: 1..4) x groups {1,2}^n over 3-4 value alphabets for every (helper, dtype in bool,int64,uint8,float,date,datetime) pair it accepts; (b) all ordered pairs of 9 first-uses (7 kernel-family representatives on float64 + first/int64, max/date, mode/bool): one process with cache off; the 30 ordered pairs of 6 of them split across two processes sharing a cache",
+    "thorough": "(c) as quick on all five dtypes; (a) 1..4 rows, plus timedelta64 (a subclass of signed integer for np.issubdtype); (b) all ordered pairs of all 16 helpers on each of float/int/bool/date x cache {off, cold, warmed by an earlier process}; all ordered triples of the 7 representatives; all ordered cross-dtype pairs of the representatives",
 }
 TIME_CAP = {"quick": 600, "thorough": 6000}
 MAXTASKS = None
@@ -56,13 +56,16 @@ ALPHA = {
     "b1": [False, True],
     "D": [None, "1970-01-01", "2020-02-29"],
     "us": [None, "1970-01-01T00:00:00", "2020-02-29T23:59:59.999999"],
+    "u1": [0, 1, 200, 255],
+    "td": [None, "1", "-2"],
 }
+KINDS_T = KINDS + ["u1", "td"]  # thorough only
 REPS = [["max", "f8"], ["mean", "f8"], ["first", "f8"], ["mode", "f8"], ["count_unique", "f8"], ["quantile", "f8"], ["sum", "f8"]]
 EXTRA = [["first", "i8"], ["max", "D"], ["mode", "b1"]]
 
 
 def accepts(helper, kind):
-    return not (helper in NUMERIC_ONLY and kind in ("D", "us"))
+    return not (helper in NUMERIC_ONLY and kind in ("D", "us", "td"))
 
 
 def arg_menu(helper):
@@ -85,7 +88,7 @@ def shards(tier):
     out = []
     n = 3 if tier == "quick" else 4
     for h in HELPERS:
-        for k in KINDS:
+        for k in (KINDS + ["u1"] if tier == "quick" else KINDS_T):
             if accepts(h, k):
                 # mode needs a 4-element group for a tie between two values that each occur twice
                 out.append({"mode": "inputs", "helper": h, "kind": k, "n": max(n, 4) if h == "mode" else n})
